@@ -4,7 +4,7 @@ Engine simnet.  Monitors:
   (a) paired differential runs: scenario S and S + ephemeral consumers with the same seed and per-link constant
       latencies; every synchronized consumer's input history must be identical in the two runs;
   (b) timing: the publication of every id may be later than in the run without ephemerals by at most a per-join phase
-      allowance (300 ms per ephemeral (re)join + 100 ms), while waiting for an ephemeral consumer even once would cost
+      allowance (400 ms per ephemeral (re)join + 200 ms: two request intervals plus link latencies), while waiting for an ephemeral consumer even once would cost
       >= 2 s (slow ephemerals need >= 2 s per frame, one is stalled for 1000 s);
   (c) transport log: a '??' source never creates a request (PUSH) socket and never sends a request;
   (d) every set an ephemeral consumer receives is complete for its subscription and ids never go backwards per source.
@@ -25,7 +25,7 @@ RULE = ('1-3 synchronized (required) + 0-3 "?" + 0-2 "??" consumers on one publi
         'with-ephemerals run')
 ASSUMPTIONS = ['synchronized consumers are declared required outputs (otherwise an ephemeral consumer legitimately lets an idle publisher start early)',
                'constant per-link latency in both runs of a pair so that extra HELLO traffic cannot re-time synchronized links',
-               'attaching or re-attaching an ephemeral consumer may shift the phase of the request rhythm once (allowance 300 ms per join), it must never accumulate']
+               'attaching or re-attaching an ephemeral consumer may shift the phase of the request rhythm once (allowance 400 ms per join + 200 ms), it must never accumulate']
 EXHAUSTIVE = None
 EPS_NS = 50_000_000
 
@@ -37,7 +37,18 @@ def gen_pair(rng, seed):
 
     def build(with_eph):
         p = Pipe()
-        p.source('src', {'nframes': N, 'proc_ms': [period], 'topics': topics, 'content': ['data'], 'end': 'idle'})
+        p.source('src', {'nframes': N, 'proc_ms': [period], 'topics': topics, 'content': ['data'], 'end': 'idle'}, nout=nout if bal else 1, balance=bal)
+        if bal:
+            # load-balanced publisher: synchronized consumers spread over its outputs, '?'/'??' listeners on output 0
+            for i in range(nsync):
+                p.sink(f'k{i}', [{'pub': 'src', 'out': i % nout, 'form': 'all'}], {'proc_ms': [sync_ms[i]]})
+            if with_eph:
+                for j, (lvl, beh, form) in enumerate(ephs):
+                    p.sink(f'e{j}', [{'pub': 'src', 'out': 0, 'form': 'all', 'eph': lvl}], dict(beh))
+            p.by_id['src']['config']['outputs_required'] = ','.join(f'k{i}' for i in range(nsync))
+            for n in p.nodes:
+                n['start_ms'] = starts.get(n['id'], 0)
+            return p
         if with_eph and rejoin:
             p.relay('eb', [{'pub': 'src', 'form': 'main', 'eph': 1}], {'proc_ms': [eb_ms]})
         for i in range(nsync):
@@ -60,7 +71,11 @@ def gen_pair(rng, seed):
     period = rng.choice([0, 20, 30, 80])
     sync_forms = [rng.choice(['all', 'main', [(t, t) for t in topics]]) for _ in range(3)]
     sync_ms = [rng.choice([0, 0, 50, 200]) for _ in range(3)]
-    rejoin = rng.random() < 0.3
+    bal = rng.random() < 0.25
+    nout = rng.choice([1, 2])
+    if bal:
+        nsync = nout if nout == 2 else rng.randint(1, 2)
+    rejoin = rng.random() < 0.3 and not bal
     eb_ms = rng.choice([0, 2000, 4000])
     ephs = []
     for j in range(rng.randint(1, 4)):
@@ -83,8 +98,12 @@ def gen_pair(rng, seed):
         elif beh['proc_ms'] == [2002]:
             faults.append({'at_ms': rng.randint(400, 2500), 'kind': 'kill_restart', 'node': f'e{j}', 'delay_ms': rng.choice([0, 500, 6000])})
     expect = {f'k{i}': N for i in range(nsync)}
-    base = scenarios.finish(build(False), seed, link, 200000, family='eph-pair', stop_counts=expect, grace_ms=500)
-    with_e = scenarios.finish(build(True), seed, link, 200000, family='eph-pair', stop_counts=expect, grace_ms=500, faults=faults,
+    split = bal and nout == 2
+    if split:
+        expect = None           # how the frames are split over the branches is the balancer's business
+    until = 25000 if split else 200000
+    base = scenarios.finish(build(False), seed, link, until, family='eph-pair', stop_counts=expect, grace_ms=500, split=split, stop_when_all_done=False)
+    with_e = scenarios.finish(build(True), seed, link, until, family='eph-pair', stop_counts=expect, grace_ms=500, faults=faults, split=split, stop_when_all_done=False,
                               loss={'p': rng.choice([0.0, 0.1, 0.3]), 'links': [['src', f'e{j}'] for j in range(len(ephs))] + [['src', 'eb']]} if rng.random() < 0.5 else None)
     if with_e['loss'] is None:
         del with_e['loss']
@@ -117,6 +136,13 @@ def judge_pair(w0, w1, s0, s1, nsync, res):
         h0, h1 = sync_history(w0, t0, f'k{i}'), sync_history(w1, t1, f'k{i}')
         res.count('sync_histories_compared')
         res.count('sync_frames_compared', len(h0))
+        if s1.get('split'):
+            # two balanced outputs: which branch gets which frame is decided at run time; what must not happen is that
+            # the branch with the ephemeral listener is starved because of it
+            res.count('balanced_split_pairs')
+            if len(h1) < 0.25 * len(h0) - 2:
+                bad.append(('balanced-branch-starved-by-ephemeral', f'k{i} received {len(h1)} frames with an ephemeral listener on the balanced publisher, {len(h0)} without'))
+            continue
         if h0 != h1:
             j = next((j for j, (a, b) in enumerate(zip(h0, h1)) if a != b), min(len(h0), len(h1)))
             bad.append(('sync-stream-altered', f'k{i}: with ephemeral listeners attached input #{j} is {h1[j] if j < len(h1) else None}, without them {h0[j] if j < len(h0) else None} ({len(h1)} vs {len(h0)} inputs)'))
@@ -125,7 +151,7 @@ def judge_pair(w0, w1, s0, s1, nsync, res):
     # consumer even once costs >= 2 s here (every slow ephemeral needs >= 2 s per frame, one is stalled for 1000 s).
     p0, p1 = pub_times(w0, 'src'), pub_times(w1, 'src')
     joins = sum(1 for n in s1['nodes'] if n['id'].startswith('e')) + sum(1 for f in s1.get('faults') or () if f['kind'] == 'kill_restart')
-    allow = (300 * joins + 100) * 1_000_000
+    allow = (400 * joins + 200) * 1_000_000
     worst = 0
     for k in sorted(p0):
         if k in p1 and k >= 1:
